@@ -20,6 +20,7 @@ import (
 
 type frameSet struct {
 	heaps      map[string]bool // whole heaps (by key) that may be modified
+	allHeaps   bool            // every typed heap (but no ghost global unless listed)
 	everything bool
 	refs       []string        // object refs (entry-state terms) that may be modified, any heap
 	ghost      map[string]bool // ghost globals
@@ -37,6 +38,8 @@ func (fv *FV) computeFrame(st *State, env *Env) {
 		switch {
 		case m.Op == "id" && m.Name == "everything":
 			fs.everything = true
+		case m.Op == "id" && m.Name == "allheaps":
+			fs.allHeaps = true
 		case m.Op == "id" && fv.u.db.GGlobal[m.Name] != "":
 			fs.ghost[m.Name] = true
 		case m.Op == "call" && m.Name == "heap":
@@ -132,7 +135,7 @@ func (fv *FV) heapKeysOfTypeName(name string) []string {
 // touchUnless: the write happens only when skip is false.
 func (fv *FV) touchUnless(st *State, key, ref, what, skip string) {
 	fs := fv.frame
-	if fs == nil || fs.everything || (key != "" && fs.heaps[key]) {
+	if fs == nil || fs.everything || fs.allHeaps || (key != "" && fs.heaps[key]) {
 		return
 	}
 	g := fv.inFrame(ref)
@@ -150,6 +153,15 @@ func (fv *FV) touchGhost(st *State, name, what string) {
 	}
 	fv.nTouch++
 	fv.addObl(st, "frame", fmt.Sprintf("frame:ghost-%s:%s#%d@%s", name, what, fv.nTouch, st.fr.fn.Name()), "false", "ghost global "+name+" is not in the modifies clause", nil)
+}
+
+func (fv *FV) touchAllHeaps(st *State, what string) {
+	fs := fv.frame
+	if fs == nil || fs.everything || fs.allHeaps {
+		return
+	}
+	fv.nTouch++
+	fv.addObl(st, "frame", fmt.Sprintf("frame:allheaps:%s#%d@%s", what, fv.nTouch, st.fr.fn.Name()), "false", "callee may modify any heap object; the caller's modifies clause is narrower", nil)
 }
 
 func (fv *FV) touchEverything(st *State, what string) {
@@ -173,7 +185,7 @@ func (fv *FV) havocLoopHeaps(st *State, keys []string) {
 		}
 		n := fv.havocHeap(st, k)
 		fs := fv.frame
-		if fs != nil && !fs.everything && !fs.heaps[k] {
+		if fs != nil && !fs.everything && !fs.allHeaps && !fs.heaps[k] {
 			var ex []string
 			for _, r := range fs.refs {
 				ex = append(ex, fmt.Sprintf("(not (= r %s))", r))
@@ -218,37 +230,24 @@ func (e *Engine) implementors(iface *types.Interface) []types.Type {
 	return out
 }
 
-// quickSolve runs z3-new synchronously on the current path condition plus extra assertions.
-func (fv *FV) quickSolve(st *State, extra string, getValue string) (status string, value string) {
-	var b strings.Builder
-	o := &Obligation{Hyps: st.pc, Goal: "true", Expect: "sat"}
+// quickEntails: does the path condition entail f? (unsat of pc && !f, E-matching only)
+func (fv *FV) quickEntails(st *State, f string) bool {
+	o := &Obligation{Hyps: st.pc, Goal: f, Expect: "unsat"}
 	pre := fv.u.prelude(nil, fv.u.db, nil)
 	txt := buildSMT(pre, strings.Join(fv.decls, "\n"), o)
-	txt = strings.Replace(txt, "(assert (not true))\n(check-sat)\n", "", 1)
-	txt = strings.Replace(txt, "(set-option :smt.mbqi false)\n(set-option :auto_config false)\n", "", 1)
-	b.WriteString(txt)
-	if extra != "" {
-		b.WriteString("(assert " + extra + ")\n")
-	}
-	b.WriteString("(check-sat)\n")
-	if getValue != "" {
-		b.WriteString("(get-value (" + getValue + "))\n")
-	}
+	fv.eng.mu.Lock()
 	fv.nQuick++
-	f := filepath.Join(fv.eng.tmp, fmt.Sprintf("quick_%s_%d.smt2", sanitize(shortKey(fv.fc.Key)), fv.nQuick))
-	os.WriteFile(f, []byte(b.String()), 0o644)
-	ctx, cancel := context.WithTimeout(context.Background(), 8*time.Second)
+	n := fv.nQuick
+	fv.eng.mu.Unlock()
+	f2 := filepath.Join(fv.eng.tmp, fmt.Sprintf("quick_%s_%d.smt2", sanitize(shortKey(fv.fc.Key)), n))
+	os.WriteFile(f2, []byte(txt), 0o644)
+	ctx, cancel := context.WithTimeout(context.Background(), 6*time.Second)
 	defer cancel()
-	cmd := exec.CommandContext(ctx, "z3-new", "-T:5", f)
+	cmd := exec.CommandContext(ctx, "z3-new", "-T:4", f2)
 	var ob bytes.Buffer
 	cmd.Stdout = &ob
 	cmd.Run()
-	lines := strings.SplitN(ob.String(), "\n", 2)
-	status = strings.TrimSpace(lines[0])
-	if len(lines) > 1 && status == "sat" {
-		value = lastSexpElem(strings.TrimSpace(lines[1]))
-	}
-	return
+	return classify(ob.String()) == "unsat"
 }
 
 // resolveDyn decides, from the path condition, the dynamic type behind an
@@ -264,45 +263,41 @@ func (fv *FV) resolveDyn(st *State, recv Val, m *types.Func) (target *ssa.Functi
 		return nil, nil, true
 	}
 	ityp := fmt.Sprintf("(ityp %s)", recv.T)
-	// literal?
 	var ids []string
-	byID := map[int64]types.Type{}
 	for _, c := range cands {
-		id := fv.u.typeID(c)
-		ids = append(ids, fmt.Sprintf("(not (= %s %d))", ityp, id))
-		byID[int64(id)] = c
+		ids = append(ids, fmt.Sprintf("(not (= %s %d))", ityp, fv.u.typeID(c)))
 	}
-	status, val := fv.quickSolve(st, "", ityp)
+	res := make([]bool, len(cands)+1)
+	done := make(chan int, len(cands)+1)
+	for i := range cands {
+		go func(i int) {
+			res[i] = fv.quickEntails(st, fmt.Sprintf("(= %s %d)", ityp, fv.u.typeID(cands[i])))
+			done <- i
+		}(i)
+	}
+	go func() {
+		res[len(cands)] = fv.quickEntails(st, "(and "+strings.Join(ids, " ")+")")
+		done <- len(cands)
+	}()
+	for i := 0; i <= len(cands); i++ {
+		<-done
+	}
 	if os.Getenv("GOVC_DEBUG") != "" {
-		fmt.Fprintf(os.Stderr, "resolveDyn %s in %s: status=%s val=%q cands=%d\n", m.Name(), fv.fc.Key, status, val, len(cands))
+		fmt.Fprintf(os.Stderr, "resolveDyn %s in %s: %v\n", m.Name(), fv.fc.Key, res)
 	}
-	if status != "sat" {
-		return nil, nil, false
+	if res[len(cands)] {
+		return nil, nil, true
 	}
-	v, okNum := smtNum(val)
-	if okNum {
-		if c, isCand := byID[v]; isCand {
-			// entailed?
-			s2, _ := fv.quickSolve(st, fmt.Sprintf("(not (= %s %d))", ityp, v), "")
-			if os.Getenv("GOVC_DEBUG") != "" {
-				fmt.Fprintf(os.Stderr, "  candidate %s entailed=%s\n", c, s2)
-			}
-			if s2 == "unsat" {
-				ms := fv.prog.MethodSets.MethodSet(c)
-				sel := ms.Lookup(m.Pkg(), m.Name())
-				if sel != nil {
-					if fn := fv.prog.MethodValue(sel); fn != nil {
-						return fn, c, false
-					}
+	for i, c := range cands {
+		if res[i] {
+			ms := fv.prog.MethodSets.MethodSet(c)
+			sel := ms.Lookup(m.Pkg(), m.Name())
+			if sel != nil {
+				if fn := fv.prog.MethodValue(sel); fn != nil {
+					return fn, c, false
 				}
 			}
-			return nil, nil, false
 		}
-	}
-	// external entailed?
-	s3, _ := fv.quickSolve(st, "(not (and "+strings.Join(ids, " ")+"))", "")
-	if s3 == "unsat" {
-		return nil, nil, true
 	}
 	return nil, nil, false
 }
